@@ -91,6 +91,8 @@ PROPS = {
     "C14": mk("exploration", RULE_W2, (1600, 50), (40000, 900), nontrivial=w2_progress, components=W2_COMPONENTS),
     "C15": mk("exploration", RULE_W2, (1600, 50), (40000, 900), nontrivial=w2_progress, components=W2_COMPONENTS),
     "C12": mk("exploration", RULE_W4Q, (6000, 40), (200000, 600), nontrivial=w4_progress, components=W4Q_COMPONENTS),
+    "C17": mk("exploration", RULE_W1, (1600, 45), (40000, 900)),
+    "C20": mk("exploration", RULE_W2, (2400, 45), (40000, 900), nontrivial=w2_progress, components=W2_COMPONENTS),
     "C18": mk("exploration", RULE_W4L, (6000, 40), (150000, 600), nontrivial=w4_progress, components=W4L_COMPONENTS),
     "C16": mk("fault_enumeration", RULE_ENUM % "stop request (graceful and immediate) issued at the k-th externally visible sender action, plus the one-shot stop right after start", (48, 50), (1200, 1200)),
 }
